@@ -51,6 +51,7 @@ theorem compile_length_F0c : ∀ (e : Expr), F0c e = true → ∀ isFn c gs r, (
     rw [F0c] at he
     simp only [Bool.and_eq_true] at he
     rw [compile] at h
+    case x_1 => intro h0; subst h0; simp at he   -- (begin) with no statements: separate clause since fix C04-02
     have := compileBegin_length_F0c es he.2 isFn c gs r h
     rw [esize]; omega
   | .cond arms d, he, isFn, c, gs, r, h => by
